@@ -53,6 +53,7 @@ def p2 : Line3 Rat := ⟨⟨5, 7, 3⟩, ⟨0, 1, 0⟩⟩
 def q2 : Line3 Rat := ⟨⟨2, 2, 1⟩, ⟨-4 / 5, 3 / 5, 0⟩⟩
 def D (a b : Line3 Rat) : Rat := by
   first
+    | exact Gen.Line3.distanceToLine ((1 : Rat) / 1024) (1048576 : Rat) rsqrt a b
     | exact Gen.Line3.distanceToLine ((1 : Rat) / 1024) rsqrt a b
     | exact Gen.Line3.distanceToLine rsqrt a b
     | exact Gen.Line3.distanceToLine a b
